@@ -18,6 +18,10 @@ THEOREMS = {
         "modules": ["Abnf.Theorems.C07"],
         "theorems": ["Abnf.C07.parse_order_independent", "Abnf.C07.parse_all_order_independent", "Abnf.C07.listed_ends_distinct"],
     },
+    "C10": {
+        "modules": ["Abnf.Theorems.C10"],
+        "theorems": ["Abnf.C10.lookup_idempotent", "Abnf.C10.lookup_case_insensitive", "Abnf.C10.resolve_own_or_core", "Abnf.C10.isolation"],
+    },
     "C18": {
         "modules": ["Abnf.Theorems.C18"],
         "theorems": ["Abnf.C18.dispatch_present", "Abnf.C18.dispatch_absent", "Abnf.C18.leaf_dispatches_on_literal",
